@@ -11,7 +11,7 @@ TOL = 1e-9   # posterior entries (absolute) and likelihood (relative); measured 
 RULE = ("single trees: EVERY rooted shape with 2-5 leaves (20 shapes, polytomies included) x per-edge mutation "
         "counts drawn from {0,0,1,1,2,3} x prior grids of 2-6 timepoints (5 fixed + random spacing) with random "
         "positive rows, prior 0 at time 0 in 60% of the cases and a few interior zeros x sequence lengths 1/10/1000 "
-        "x eps in {1e-8,1e-6,1e-3,0.1} x both probability spaces x outside_standardize on/off x cached/uncached "
+        "x eps in {1e-8,1e-6,1e-3,0.1} or (30%) {0.1,0.3,1,3} x the median grid spacing x both probability spaces x outside_standardize on/off x cached/uncached "
         "g_i x random renumbering of the internal nodes; plus msprime single-tree inputs with up to 6 leaves. "
         "A case is non-trivial when the tree has >= 2 internal nodes and >= 1 mutation; distinct by content hash."
         "About half of the inputs carry 1-3 extra mutations that sit on NO edge (above the root of the local tree; valid tskit input); the references count only mutations on edges, computed from the tables.")
